@@ -756,7 +756,6 @@ func sameSliceVar(a, b ssa.Value) bool {
 	return root(a) == root(b)
 }
 
-
 // sliceOnlyFeedsOrderInsensitiveCallee: the slice built by these appends is used only as an argument of
 // module functions that merely range over that parameter.
 func sliceOnlyFeedsOrderInsensitiveCallee(appends []ssa.Value) bool {
